@@ -36,16 +36,17 @@ WATCHDOG_S = {"quick": 900, "thorough": 3400}
 SHARD_BUDGET_S = {"quick": 40, "thorough": 600}
 
 OPS = ("mul", "rmul", "add", "eq", "x", "y", "to_affine", "scale", "double", "neg", "mul_add", "pickle", "verify", "precompute", "precompute_lazy", "sign", "to_string", "mulS", "addGS",
-       "pickleS", "to_affineG", "scaleG", "xS", "yG", "pickle_vk")
+       "pickleS", "to_affineG", "scaleG", "xS", "yG", "pickle_vk", "mul_addQ", "verify2", "copy_vk", "deepcopy_sk", "to_affineQ2")
 
 
 DIRECTED = [("pickle", "to_affineG"), ("pickle", "scaleG"), ("pickleS", "to_affine"), ("pickleS", "scale"), ("pickle", "mul"), ("pickle", "mul_add"),
             ("pickle_vk", "precompute"), ("pickle_vk", "verify"), ("to_affineG", "x"), ("scaleG", "yG"), ("to_affine", "y"), ("scale", "xS"),
-            ("mul", "rmul"), ("precompute_lazy", "verify"), ("eq", "scaleG"), ("addGS", "to_affine"), ("to_affineG", "to_affineG"), ("scale", "scale")]
+            ("mul", "rmul"), ("precompute_lazy", "verify"), ("eq", "scaleG"), ("addGS", "to_affine"), ("to_affineG", "to_affineG"), ("scale", "scale"),
+            ("mul_add", "mul_addQ"), ("verify", "verify2"), ("copy_vk", "sign"), ("deepcopy_sk", "verify"), ("copy_vk", "mul"), ("to_affine", "to_affineQ2"), ("to_affineQ2", "to_affineQ2")]
 
 
 def monitored_codes():
-    codes = S.codes_of(EC.PointJacobi)
+    codes = S.codes_of(EC.PointJacobi) + S.codes_of(EC.CurveFp, {"contains_point", "__eq__", "__ne__", "__hash__"})
     codes += S.codes_of(K.VerifyingKey, {"precompute", "verify", "verify_digest", "to_string", "_raw_encode", "_compressed_encode"})
     codes += S.codes_of(E.Public_key, {"verifies"})
     codes += S.codes_of(E.Private_key, {"sign"})
@@ -85,6 +86,17 @@ class Scenario(object):
                 break
             retry += 1
         self.sig = sigs.ref_encode("string", rs[0], rs[1], n)
+        # a second key pair on the same curve (another "other" point for the generator's mul_add)
+        self.d2 = rng.randrange(1, n)
+        self.Qk2 = ecdsa_ref.pubkey(dom, self.d2)
+        while True:
+            rs2 = ecdsa_ref.sign(dom, self.d2, rng.randrange(1, n), e)
+            if isinstance(rs2, tuple):
+                break
+        self.sig2 = sigs.ref_encode("string", rs2[0], rs2[1], n)
+        self.PQ2 = cv.mul(rng.randrange(1, n), dom.G)
+        self.zQ2 = rng.randrange(2, p)
+        self.age = rng.choice((0, 0, 70, 300, 1100))
         self.plans = []
         for t in range(nthreads):
             nops = rng.choice((1, 1, 2))
@@ -106,6 +118,11 @@ class Scenario(object):
         sk = ecdsa.SigningKey.from_secret_exponent(self.d, self.curve, self.hf)
         sh["sk"] = sk
         sh["vk"] = sk.verifying_key
+        sh["vk2"] = ecdsa.VerifyingKey.from_public_point(lib.mk_jac(self.cfp, self.Qk2, self.zS, n), self.curve, self.hf)      # unscaled point, as a recovered key holds
+        sh["Q2"] = lib.mk_jac(self.cfp, self.PQ2, self.zQ2, n, False)
+        # age the curve object: whatever per-curve bookkeeping exists has seen `age` distinct queries before the threads start
+        for x_ in range(self.age):
+            self.cfp.contains_point(x_, 1)
         return sh
 
     def expected(self, op, arg, arg2):
@@ -135,6 +152,17 @@ class Scenario(object):
             return cv.neg(Sp)
         if op == "mul_add":
             return cv.add(cv.mul(arg, G), cv.mul(arg2, Sp))
+        if op == "mul_addQ":
+            return cv.add(cv.mul(arg, G), cv.mul(arg2, Q))
+        if op == "verify2":
+            return True
+        if op == "copy_vk":
+            L = self.dom.pbytes()
+            return (self.Qk[0].to_bytes(L, "big") + self.Qk[1].to_bytes(L, "big"), True)
+        if op == "deepcopy_sk":
+            return self.sig
+        if op == "to_affineQ2":
+            return self.PQ2
         if op == "pickle":
             return (G, cv.mul(3, G))
         if op == "verify":
@@ -197,6 +225,20 @@ def perform(sh, sc, op, arg, arg2):
         return aff(-Sp)
     if op == "mul_add":
         return aff(G.mul_add(arg, Sp, arg2))
+    if op == "mul_addQ":
+        return aff(G.mul_add(arg, Q, arg2))
+    if op == "verify2":
+        return sh["vk2"].verify(sc.sig2, sc.msg, hashfunc=sc.hf)
+    if op == "copy_vk":
+        import copy
+        c = copy.copy(sh["vk"]) if arg % 2 else copy.deepcopy(sh["vk"])
+        return (c.to_string(), c.verify(sc.sig, sc.msg, hashfunc=sc.hf))
+    if op == "deepcopy_sk":
+        import copy
+        return copy.deepcopy(sh["sk"]).sign_deterministic(sc.msg, hashfunc=sc.hf)
+    if op == "to_affineQ2":
+        a = sh["Q2"].to_affine()
+        return (a.x(), a.y())
     if op == "pickle":
         c = pickle.loads(pickle.dumps(G))
         return (aff(c), aff(c * 3))
@@ -228,7 +270,7 @@ def perform(sh, sc, op, arg, arg2):
     raise ValueError(op)
 
 
-OPCLS = {"mul": "mul", "rmul": "mul", "mulS": "mul", "add": "add", "addGS": "add", "precompute_lazy": "precompute", "pickleS": "pickle", "pickle_vk": "pickle",
+OPCLS = {"mul_addQ": "mul_add", "verify2": "verify", "copy_vk": "pickle", "deepcopy_sk": "pickle", "to_affineQ2": "to_affine", "mul": "mul", "rmul": "mul", "mulS": "mul", "add": "add", "addGS": "add", "precompute_lazy": "precompute", "pickleS": "pickle", "pickle_vk": "pickle",
          "to_affineG": "to_affine", "scaleG": "scale", "xS": "x", "yG": "y"}
 
 
@@ -331,6 +373,34 @@ def one_run(ctx, sc, decider, hooks, cls, seen, check_every=1, snapshot_every=40
             if got != want:
                 ctx.violation("result_differs_from_sequential:" + OPCLS.get(op, op), "%s plans=%r: thread %d %s(%r,%r) = %r, sequential value %r" % (
                     sc.curve.name, sc.plans, i, op, arg, arg2, got, want), wit)
+    # after the run, at rest: every operation of the plans, repeated sequentially on the same shared objects, gives the sequential value
+    # (state left behind by an interleaving - half-updated memos, tables - shows in LATER calls, not in the racing ones)
+    # Each operation is tried as the FIRST later call (on a pickled-and-restored copy of the whole shared state, object identities
+    # between the shared objects preserved), then all of them in sequence on the live objects.
+    try:
+        blob = pickle.dumps(sh)
+    except Exception as ex:
+        blob = None
+        ctx.violation("operation_raises_under_interleaving", "%s plans=%r: pickling the shared objects at rest raised %s: %s" % (sc.curve.name, sc.plans, type(ex).__name__, ex), wit)
+    todo = []
+    for i, plan in enumerate(sc.plans):
+        for (op, arg, arg2) in plan:
+            if blob is not None:
+                todo.append((pickle.loads(blob), op, arg, arg2))
+    for i, plan in enumerate(sc.plans):
+        for (op, arg, arg2) in plan:
+            todo.append((sh, op, arg, arg2))
+    for (shx, op, arg, arg2) in todo:
+        if True:
+            want = sc.expected(op, arg, arg2)
+            try:
+                got = perform(shx, sc, op, arg, arg2)
+            except Exception as ex:
+                got = "raised %s: %s" % (type(ex).__name__, ex)
+            ctx.count("post_run_reexecutions")
+            if got != want:
+                ctx.violation("later_call_wrong_after_interleaving:" + OPCLS.get(op, op), "%s plans=%r: after the threads finished, %s(%r,%r) = %r, sequential value %r" % (
+                    sc.curve.name, sc.plans, op, arg, arg2, got, want), wit)
     # after the run every shared object must still denote its birth value
     for nm, P in shared_points:
         bad = invariant(cv, sh[nm], P)
@@ -351,6 +421,8 @@ def shards(tier, seed):
         out.append(("pct_%d" % i, dict(kind="pct", scenarios=8 if q else 40, per=12 if q else 60)))
     for i in range(2 if q else 12):
         out.append(("every_instruction_%d" % i, dict(kind="random", scenarios=(18 if q else 72), per=4 if q else 20, instr="ALL", pswitch=(0.003, 0.01, 0.03), offset=i * 9)))
+    for i in range(6 if q else 16):
+        out.append(("stores_%d" % i, dict(kind="stores", scenarios=5 if q else 40, maxpos=150, limit2=30 if q else 400, offset=i * 5)))
     out.append(("prod_random", dict(kind="prod", cname="SECP112r2", scenarios=2 if q else 12, per=4 if q else 20)))
     if not q:
         out.append(("prod_random_192", dict(kind="prod", cname="NIST192p", scenarios=4, per=10)))
@@ -370,9 +442,40 @@ def run(ctx, name, kind, **kw):
     if kind == "free":
         return free_running(ctx, rng, kw["rounds"])
     hooks = S.LineHooks()
-    hooks.install(monitored_codes(), "ALL" if kw.get("instr") == "ALL" else (SHARED_ATTRS if kw.get("instr") else None))
+    if kind == "stores":
+        hooks.install(monitored_codes(), "STORES", lines=False)
+    else:
+        hooks.install(monitored_codes(), "ALL" if kw.get("instr") == "ALL" else (SHARED_ATTRS if kw.get("instr") else None))
     try:
-        if kind == "systematic":
+        if kind == "stores":
+            # yield points ONLY at accesses to mutable shared state (every attribute/global/item store of the monitored code, and
+            # every load of a name that is stored somewhere): few per operation, so EVERY single-preemption schedule of a pair of
+            # operations is run, then sampled pairs of preemptions
+            ctx.count("stored_names_monitored", len(hooks.stored_names))
+            pairs = list(DIRECTED)
+            rng.shuffle(pairs)
+            for si in range(kw["scenarios"]):
+                curve, dom = toy_pick(rng)
+                sc = Scenario(rng, curve, dom, 2)
+                a, b = pairs[(si + kw.get("offset", 0)) % len(pairs)] if si % 4 else (rng.choice(OPS), rng.choice(OPS))
+                if rng.random() < 0.5:
+                    a, b = b, a
+                sc.plans[0] = [(a, sc.plans[0][0][1], sc.plans[0][0][2])]
+                sc.plans[1] = [(b, sc.plans[1][0][1], sc.plans[1][0][2])]
+
+                def run_once(delays):
+                    dec = S.delay_decider(delays)
+                    one_run(ctx, sc, dec, hooks, "schedule.stores_systematic", seen)
+                    return min(dec.state["i"], kw["maxpos"])
+                for _d in S.enumerate_delays(run_once, 1, None, None):
+                    if ctx.expired():
+                        break
+                for _d in S.enumerate_delays(run_once, 2, kw["limit2"], rng):
+                    if ctx.expired():
+                        break
+        if kind == "stores":
+            pass
+        elif kind == "systematic":
             for _ in range(kw["scenarios"]):
                 curve, dom = toy_pick(rng)
                 sc = Scenario(rng, curve, dom, 2)
